@@ -212,6 +212,24 @@ def _branch_and_price(
 ):
     """Main branch-and-price algorithm."""
     total_cg_iters = 0
+    root_bound = float("-inf")
+
+    def finish(solution, nodes, status):
+        """Hand back a plan: it must cover every demand, and OPTIMAL needs the root LP bound to match."""
+        plan = dict(solution)
+        for i, demand in enumerate(demands):
+            produced = sum(col[i] * cnt for col, cnt in plan.items())
+            if produced < demand:
+                # Safety net: top up with the column that yields most copies of the missing piece
+                best = max(columns, key=lambda col: col[i])
+                if best[i] <= 0:
+                    return Result(None, float("inf"), nodes, total_cg_iters, Status.INFEASIBLE)
+                plan[best] = plan.get(best, 0) + ceil((demand - produced) / best[i])
+                status = Status.FEASIBLE
+        rolls = float(sum(plan.values()))
+        if status == Status.OPTIMAL and rolls > ceil(root_bound - 1e-6):
+            status = Status.FEASIBLE  # no certificate: the search tree does not re-price dropped columns
+        return Result(plan, rolls, nodes, total_cg_iters, status)
 
     # Solve root node LP via column generation
     x_vals, lp_obj, cg_iters = _solve_node_lp(
@@ -221,12 +239,13 @@ def _branch_and_price(
 
     if lp_obj == float("inf"):
         return Result(None, float("inf"), 0, total_cg_iters, Status.INFEASIBLE)
+    root_bound = lp_obj
 
     # Check if root LP is already integer
     frac_idx, frac_val = _most_fractional(x_vals, eps)
     if frac_idx is None:
         solution = _build_solution(x_vals, columns, eps)
-        return Result(solution, lp_obj, 0, total_cg_iters, Status.OPTIMAL)
+        return finish(solution, 0, Status.OPTIMAL)
 
     # Initialize B&B
     best_solution: dict[tuple[int, ...], int] | None = None
@@ -280,7 +299,7 @@ def _branch_and_price(
                 # Check gap
                 gap = (best_obj - lp_obj) / max(abs(best_obj), 1e-10)
                 if gap < gap_tol:
-                    return Result(best_solution, best_obj, nodes_explored, total_cg_iters, Status.OPTIMAL)
+                    return finish(best_solution, nodes_explored, Status.OPTIMAL)
             continue
 
         # Branch on most fractional column
@@ -302,7 +321,7 @@ def _branch_and_price(
         return Result(None, float("inf"), nodes_explored, total_cg_iters, Status.INFEASIBLE)
 
     status = Status.OPTIMAL if not tree else Status.FEASIBLE
-    return Result(best_solution, best_obj, nodes_explored, total_cg_iters, status)
+    return finish(best_solution, nodes_explored, status)
 
 
 def _solve_node_lp(columns, column_set, demands, col_bounds, pricing_fn, is_cutting_stock, max_iter, eps):
